@@ -87,6 +87,8 @@ class BufInterp(FinamInterp):
                 return Sym("pulled", args[0])
             if name == "strip_time":
                 return Sym("stripped", args[0])
+            if name == "is_quantified":
+                return isinstance(args[0], Sym) and args[0].op == "qty"
             if name == "prepare":
                 return Sym("prepared", args[0], kwargs.get("time_entries", args[2] if len(args) > 2 else 1))
             if name == "notify_targets":
@@ -242,6 +244,46 @@ def r27_interp(repo, sink, tier="quick"):
                    bad=worst or "", order_types=cases)
     sink.note("R27.order_types", total)
     sink.floor("R27", "order types", total, 4 * 20)
+    # sequences: an earlier request (with the discarding it triggers, and whatever the adapter remembers about it) never
+    # changes the answer to a later one - the second of two non-decreasing requests gets what a fresh adapter holding the
+    # full history would deliver
+    Q1 = Sym("q1")
+    n = 4
+    pairs = 0
+    for kind in kinds:
+        c = repo.cls(kind)
+        f = repo.resolve(c, "_get_data", "method")
+        worst = None
+        inside = [p for p in positions(n) if p[0] not in ("below", "above")]
+        for p1 in inside:
+            for p2 in inside:
+                if rank_of(p2, n) < rank_of(p1, n):
+                    continue
+                order = make_order(n, {Q1: p1, Q: p2})
+                if p1 == p2:
+                    order.rank[repr(Q1)] = order.rank[repr(Q)]
+                it = BufInterp(repo, order)
+                o = _adapter_obj(repo, kind, n, extra={"step": Sym("step")})
+
+                def thunk(it=it, o=o, f=f):
+                    ob = _fresh(o)
+                    it.run(f, [Q1, None], self_obj=ob)
+                    return (it.run(f, [Q, None], self_obj=ob),)
+
+                try:
+                    paths = it.run_all(thunk)
+                except Undecided as u:
+                    raise AnalysisError(f"{kind}._get_data (two requests): undecidable condition {u}") from u
+                pairs += 1
+                exp = _expect_interp(kind, n, p2, None)
+                for decs, (okind, val) in paths:
+                    why = _judge_interp(kind, exp, decs, okind, val, n, p2)
+                    if why and worst is None:
+                        worst = f"buffer of {n}, request {_pos_txt(p1)} followed by request {_pos_txt(p2)}: the second request {why}"
+        sink.check(worst is None, "R27", f"interp-after-earlier-request:{kind}", f,
+                   ok="the answer to a request does not depend on earlier (not later) requests and the discarding they caused",
+                   bad=worst or "")
+    sink.note("R27.request_pairs", pairs)
 
 
 class _AffineError(Exception):
@@ -450,6 +492,55 @@ def r21_evict(repo, sink, tier="quick"):
                ok=f"{cases} cases (1-2 consumers): history is cut exactly below the slowest consumer's last request, never while a consumer has not pulled",
                bad=worst or "", cases=cases)
     sink.floor("R21", "Output eviction cases", cases, 30)
+    # (c) a push-based consumer pulls from inside the notification of the very publication: the history is cut then, too
+    # (an output consumed only that way would otherwise never release anything)
+    pd = repo.resolve(c, "push_data", "method")
+    worst = None
+    for n in (1, 2, 3):
+        kinds = ["ram"] * n
+        newt = Sym("tnew")
+        order = make_order(n, {})
+        order.name(newt, "tnew", 4 * n)
+        tgt = Obj(cls=repo.cls("NextTime"), label="push-based consumer")
+        o = _fresh(_output_obj(repo, n, kinds, {tgt: T(n - 1)}))
+
+        class _Reenter(BufInterp):
+            def call_hook(self, fv, args, kwargs, node, mod):
+                if isinstance(fv, Closure) and getattr(fv.func, "name", "") == "notify_targets" and fv.self_obj is not None:
+                    self.run(f, [args[0], tgt], self_obj=fv.self_obj)  # the consumer's pull, from inside the notification
+                    return None
+                if isinstance(fv, Closure) and getattr(fv.func, "name", "") == "prepare":
+                    r = Sym("prepared", args[0])
+                    return (r, None) if kwargs.get("report_conversion") else r
+                return super().call_hook(fv, args, kwargs, node, mod)
+
+            def ext_call(self, name, args, kwargs, node):
+                if name.split(".")[-1] in ("may_share_memory", "shares_memory"):
+                    return False
+                return super().ext_call(name, args, kwargs, node)
+
+            def get_attr(self, obj, attr, node, mod):
+                if isinstance(obj, Sym) and obj.op in ("prepared", "payload") and attr in ("data", "size", "nbytes", "magnitude"):
+                    return Sym("attr", obj, attr)
+                return super().get_attr(obj, attr, node, mod)
+
+        it = _Reenter(repo, order)
+        try:
+            it.run(pd, [Sym("payload"), newt], self_obj=o)
+        except Raised as r:
+            worst = worst or f"history of {n}: publishing with a consumer that pulls inside the notification raises {r.name}"
+            continue
+        except (Undecided, AnalysisError) as exc:
+            sink.unknown("R21", "evict:inside-notification", pd, f"outside vocabulary: {exc}")
+            worst = "skip"
+            break
+        times = [d[0] for d in o.fields["data"]]
+        if times != [newt]:
+            worst = worst or (f"history of {n} entries, the only consumer pulls the new publication from inside its notification: the history afterwards "
+                              f"holds {times!r}; only the new publication may remain (the output never releases anything for push-based consumers)")
+    if worst != "skip":
+        sink.check(worst is None, "R21", "evict:inside-notification", pd,
+                   ok="a pull from inside the notification cuts the history like any other pull", bad=worst or "")
 
 
 def _run_keep(it, f, o, args, conn_key=False):
